@@ -9,7 +9,7 @@ use std::sync::Arc;
 
 fn sign_events<V: Fv>(proc_id: u64, seed: u64, nthreads: usize, per: usize, nkeys: usize) -> Vec<Value> {
     let mut rng = rng_for(seed, &format!("system-{}-{}", V::N, proc_id));
-    let keys: Vec<Arc<(V::Sk, V::Pk)>> = (0..nkeys).map(|_| Arc::new(V::keygen(rng.gen()))).collect();
+    let keys: Vec<Shared<(V::Sk, V::Pk)>> = (0..nkeys).map(|_| share(V::keygen(rng.gen()))).collect();
     let mut handles = vec![];
     for t in 0..nthreads {
         let keys = keys.clone();
@@ -136,7 +136,7 @@ fn keygen_events<V: Fv>(proc_id: u64, seed: u64, bases: usize, flips: usize, con
     // bit flips, computed on a pool of threads; concurrently other threads sign (shared key)
     let base = base_seeds[0];
     let (bsk, _) = V::keygen(base);
-    let bsk = Arc::new(bsk);
+    let bsk = share(bsk);
     let stop = Arc::new(std::sync::atomic::AtomicBool::new(false));
     let mut signers = vec![];
     if concurrent {
